@@ -9,7 +9,8 @@ From CGV Require Hydro.Hydrogens Hydro.Squash.
 From CGV Require Import Compose.GraphAdj Compose.CutModel Compose.CutPos Compose.CutTables Compose.CutDisc Compose.CutSkeleton Compose.CutWf
      Compose.CutHydrogens Compose.ComposeFlat Compose.CutSpecCheck Compose.RebuildWf Compose.CutSorted Compose.CutRunCheck Compose.CutRunSound Compose.SortIdentity Compose.LayeredStep Compose.Levels Compose.PartPerm Compose.Completion Compose.RelabelEdges Compose.CutIso Compose.OrderIndep Compose.ReturnedIso Compose.LevelsIso
      Compose.Transcript Compose.CompletionCar Compose.CutIsoCar Compose.ReturnedIsoCar
-     Compose.LevelsRunCheck Compose.LevelsRunSound.
+     Compose.LevelsRunCheck Compose.LevelsRunSound Compose.SharedCut.
+From CGV Require Hydro.BangBonds Hydro.BangGraph Hydro.QuotientDefs Resolve.CopyProofs Hydro.SquashProofs.
 Import ListNotations.
 Open Scope Z_scope.
 
@@ -166,6 +167,35 @@ Theorem C06_run_check_sound : forall r, lrun_judged r = true -> lrun_fail r = 0%
         forall g, lr_m2 r = Some g -> skeleton (perm_cut C0 (last_eff U Cs)) true g).
 Proof. exact levels_run_check_sound. Qed.
 
+(** ---- shared nodes: the squash operator `!` (SharedCut.v; on Hydro's BangGraph / squash_quotient) ---- *)
+(** a description with shared atoms = a cut of the molecule as written whose `$` pairs with a label in L are written `!`:
+    the `!`-written templates resolve to the skeleton of the written molecule with those texts rewritten *)
+Theorem C01_shared_bonding_skeleton : forall C, wf_cut C -> forall L fd, templates_ok C fd -> forall B, is_base C B -> forall aa : bool,
+  (aa = true -> forall x, In x (flat C) ->
+     (exists e, aget (S "element") (payload C x) = Some e) /\ exists h, aget (S "hcount") (payload C x) = Some (VInt h)) ->
+  exists m1 fg1 m2 fg2,
+    resolve_disconnected (BangGraph.fdmap (BangBonds.bangify L) fd) B = Ok (m1, fg1) /\
+    bonding_step true aa B m1 fg1 = Ok (BangGraph.gmap (BangBonds.bangify L) m2, fg2) /\ skeleton C aa m2 /\ adj_nodup m2.
+Proof. exact shared_bonding_skeleton. Qed.
+(** the edges squash_atoms contracts are exactly the cut bonds of C that are `$` pairs with a label in L *)
+Definition C01_bang_items_sound := bang_items_sound.
+Definition C01_bang_items_complete := bang_items_complete.
+(** whatever squash_atoms returns on that graph is the quotient of the written molecule by the `!` pairs
+    ([squashed_ok]: representatives survive, classes = connectedness through `!` bonds of C, two representatives are
+    bonded iff members of their classes are bonded in C) *)
+Theorem C01_shared_cut_quotient : forall C, wf_cut C -> forall L aa m2, skeleton C aa m2 -> adj_nodup m2 -> forall g',
+  Squash.squash_atoms (BangGraph.gmap (BangBonds.bangify L) m2) = Ok g' -> squashed_ok C L m2 g'.
+Proof. exact shared_cut_quotient. Qed.
+Theorem C01_shared_resolve_squash : forall C fd B L, wf_cut C -> templates_ok C fd -> is_base C B ->
+  (forall x, In x (flat C) -> (exists e, aget (S "element") (payload C x) = Some e) /\ exists h, aget (S "hcount") (payload C x) = Some (VInt h)) ->
+  exists m1 fg1 m2 fg2,
+    resolve_disconnected (BangGraph.fdmap (BangBonds.bangify L) fd) B = Ok (m1, fg1) /\
+    bonding_step true true B m1 fg1 = Ok (BangGraph.gmap (BangBonds.bangify L) m2, fg2) /\ skeleton C true m2 /\
+    (CopyProofs.wf_dict (BangGraph.fdmap (BangBonds.bangify L) fd) -> SquashProofs.hnum_g (BangGraph.gmap (BangBonds.bangify L) m2) ->
+       exists g', Squash.squash_atoms (BangGraph.gmap (BangBonds.bangify L) m2) = Ok g') /\
+    (forall g', Squash.squash_atoms (BangGraph.gmap (BangBonds.bangify L) m2) = Ok g' -> squashed_ok C L m2 g').
+Proof. exact shared_resolve_squash. Qed.
+
 Print Assumptions C01_cut_bonding_skeleton.
 Print Assumptions C01_cut_tables_dedicated.
 Print Assumptions C01_cut_tables_disjoint.
@@ -205,3 +235,7 @@ Print Assumptions C06_compose_levels_resolve_iso_car.
 Print Assumptions C01_corr_orders_id.
 Print Assumptions C06_run_check_sound.
 Print Assumptions C06_coarse_of_test_sound.
+Print Assumptions C01_shared_bonding_skeleton.
+Print Assumptions C01_shared_cut_quotient.
+Print Assumptions C01_shared_resolve_squash.
+Print Assumptions C01_bang_items_complete.
